@@ -18,6 +18,7 @@ pub mod c17;
 pub mod c18;
 #[cfg(feature = "robotics")]
 pub mod c19;
+pub mod c20;
 
 use crate::engine::Ctx;
 
@@ -51,6 +52,7 @@ pub fn dispatch(ctx: &Ctx, replay: Option<&str>) -> i32 {
         "C18" => p!(c18),
         #[cfg(feature = "robotics")]
         "C19" => p!(c19),
+        "C20" => p!(c20),
         other => {
             eprintln!("MACHINERY: unknown property {}", other);
             2
